@@ -8,6 +8,7 @@ import (
 	"math"
 	"math/big"
 	"math/bits"
+	"strconv"
 	"strings"
 )
 
@@ -322,6 +323,18 @@ func ParseCurrency(s string) (Currency, error) {
 	n, unit := s[:i], strings.TrimSpace(s[i:])
 	if unit == "" || unit == "H" {
 		return parseHastings(n)
+	}
+	// reject exponents that cannot yield a Currency before big.Rat expands
+	// them: "1e999999 SC" is a few bytes of input but a very large number.
+	// (In a hexadecimal mantissa 'e' is a digit and only 'p' is an exponent.)
+	marker := "eEpP"
+	if strings.Contains(n, "0x") || strings.Contains(n, "0X") {
+		marker = "pP"
+	}
+	if j := strings.LastIndexAny(n, marker); j >= 0 {
+		if exp, err := strconv.Atoi(n[j+1:]); err == nil && (exp > 256 || exp < -256) {
+			return ZeroCurrency, errors.New("exponent out of range")
+		}
 	}
 	// parse numeric part as a big.Rat
 	r, ok := new(big.Rat).SetString(n)
